@@ -365,13 +365,24 @@ BoolCtx(pi, id, par) ==
              \/ q.k = "un" /\ q.op = "!"
              \/ q.k \in {"if", "while", "dowhile", "cond"} /\ q.a = id
              \/ q.k = "for" /\ q.b = id
+\* "bitnot-range": the impossible ranges cppcheck attaches to a ~ node do not follow from the operand (they are
+\*     contradictory for ~(a < b), have the wrong sign for operands narrower than int, are off for int operands).
+\* "unsigned-nowrap": on a node of a narrow unsigned type (all of them on p16, where unsigned int has 16 bits) the fact
+\*     holds for the mathematical result v + 2^N or v - 2^N but not for the wrapped value v: the analysis ignored the
+\*     wrap-around of unsigned arithmetic.
+WrapHolds(pi, id, f, v, pre, post) ==
+  LET ty == N(pi, id).ty pl == PL(pi) IN
+  /\ ty \in IntTypes /\ ~IsSigned(ty) /\ Narrow(pl, ty) /\ f.k \in {"eq", "gt", "lt"}
+  /\ \/ Holds(pi, id, f, v + Pow2(Bits(pl, ty)), pre, post)
+     \/ Holds(pi, id, f, v - Pow2(Bits(pl, ty)), pre, post)
 ClassOf(pi, id, f, v, pre, post) ==
   IF f.k = "eq" /\ f.v = 1 /\ v # 0 /\ BoolCtx(pi, id, f.par) THEN "truthy-known-1"
+  ELSE IF f.k \in {"gt", "lt"} /\ N(pi, id).k = "un" /\ N(pi, id).op = "~" THEN "bitnot-range"
+  ELSE IF WrapHolds(pi, id, f, v, pre, post) THEN "unsigned-nowrap"
   ELSE IF f.k # "seq" THEN ""
   ELSE LET sv == SymVal(pi, f, pre, post) IN
        IF sv = <<>> \/ ~SafeAdd(sv[1], f.v) THEN ""
-       ELSE LET x == sv[1] + f.v IN
-            IF SafeSub(v, x) /\ (v - x) % 256 = 0 THEN "sym-mod256" ELSE ""
+       ELSE IF v % 256 = (sv[1] + f.v) % 256 THEN "sym-mod256" ELSE ""
 
 FirstContradiction(pi, ev, pre, post) ==
   LET cs == Contradictions(pi, ev, pre, post) IN
